@@ -290,13 +290,11 @@ def check(ctx):
     # sync handler accumulates (no reset in handle) => the callback MUST clear; async resets => callback need not.
     # wiring
     con = repo.method("GeckoAsyncSpa", "_connect")
-    ok = False
-    for n in walk_no_nested(con.node):
-        if isinstance(n, ast.Call) and call_name(n) == ASYNC_H:
-            for kw in n.keywords:
-                if kw.arg == "async_on_handled" and ast.unparse(kw.value) == "self._async_on_partial_status_update":
-                    ok = True
-    ctx.ob("R6", "GeckoAsyncSpa._connect::wires-partial-handler", ok, "async partial-update handler is not constructed with async_on_handled=self._async_on_partial_status_update", con.loc)
+    from ..facts import connection_tasks
+    started = connection_tasks(repo)   # by interpretation of _connect on a model event loop
+    ok = any(t["kind"] == "consume" and t["handler"] == ASYNC_H and "_async_on_partial_status_update" in t["callbacks"] for t in started)
+    ctx.ob("R6", "GeckoAsyncSpa._connect::wires-partial-handler", ok,
+           f"_connect does not start a consumer for {ASYNC_H} wired to _async_on_partial_status_update (tasks started: {[(t['name'], t['handler'], t['callbacks']) for t in started]})", con.loc)
     ini = repo.own_method("GeckoSpa", "__init__")
     ok = False
     for n in walk_no_nested(ini.node):
